@@ -1,4 +1,5 @@
 """C11 — hop-field authentication and per-AS advance are a correct monotone state machine."""
+import re
 import templates as T
 import facts as FX
 import panic as PN
@@ -179,6 +180,51 @@ def run(F, R, tier, cfg):
             if not ok:
                 R.violation("MONO", p + "/ok-without-advance", "egress advance can succeed without moving the current-hop pointer forward", F.loc(p))
     R.floor("MONO", n_set, 3, "set_curr_hop_field/set_curr_info_field calls in advance functions")
+
+    # ---- VAL-flow: every validator verdict computed by an advance function reaches the final accept/reject decision
+    n_val = 0
+    VAL = "::AdvanceValidator::validate_"
+    for p in inst:
+        if not p.endswith("_with_validator") or not F.has_body(p):
+            continue
+        b = F.body(p)
+        direct = [c for c in b.calls if not c.indirect and VAL in c.decl and c.bb in b.live_blocks()]
+        clos = [q for q in F.closure_children(p) if F.has_body(q) and any(VAL in c.decl for c in F.body(q).calls if not c.indirect)]
+        decisions = []
+        for g in sorted(b.live_blocks()):
+            t = b.term(g)
+            if t[0] == "switch":
+                o = b.origin(t[1])
+                if o[0] == "disc" and any(n[0] == "call" and VAL in n[1] for n in walk(o)):
+                    decisions.append((g, o))
+        n_val += len(direct) + len(clos)
+        ok = len(decisions) >= 1
+        if ok:
+            g, o = decisions[-1]
+            sites = {n[5] for n in walk(o) if n[0] == "call" and len(n) > 5}
+            aggs = {n[1][1] for n in walk(o) if n[0] == "agg" and len(n[1]) > 1 and isinstance(n[1][1], str)}
+            missing = [("call@bb%d %s" % (c.bb, short(c.decl)), c.span.loc) for c in direct if c.bb not in sites] + \
+                      [("closure %s" % short(q), F.loc(q)) for q in clos if q not in aggs]
+            # a verdict computed on every path to the decision (its call dominates the decision) must be part of the
+            # decided value on every path, i.e. of every alternative of the value's phi — not overwritten on some arm
+            inner = o[1]
+            alts = [a for a in inner[1] if isinstance(a, tuple)] if inner[0] == "phi" else [inner]
+            for c in direct:
+                if b.dominates(c.bb, g):
+                    for a in alts:
+                        # ("loop", l): the alternative is computed from the previous value of the same variable
+                        # (`verdict = verdict.or_else(..)`), which keeps the earlier verdict
+                        if c.bb not in {n[5] for n in walk(a) if n[0] == "call" and len(n) > 5} and not any(n[0] == "loop" for n in walk(a)):
+                            missing.append(("call@bb%d %s is dropped on one arm: %s" % (c.bb, short(c.decl), fmt(FX.strip_sites(a), 90)), c.span.loc))
+                            break
+        else:
+            missing = [("no decision on the validation verdict found", F.loc(p))]
+        R.ob("VAL-flow", "%s: %d direct validator call(s) and %d validator closure(s) all feed the final verdict" % (short(p), len(direct), len(clos)),
+             not missing, True, {"rule": "VAL-flow", "fn": p, "direct_calls": len(direct), "closures": len(clos), "missing": [m[0] for m in missing], "holds": not missing})
+        for m, loc in missing:
+            R.violation("VAL-flow", "%s/%s" % (p, re.sub(r"@bb\d+", "", m)), "a validator verdict computed in %s does not reach the final accept/reject decision "
+                        "(overwritten or dropped): %s — a hop field / segment change that failed validation is accepted" % (short(p), m), loc)
+    R.floor("VAL-flow", n_val, 4, "validator calls in advance_{ingress,egress}_with_validator (ingress: 1 direct + 2 closures, egress: 1 direct)")
 
     # ---- MAC input layout
     mb = F.body(MACFN)
